@@ -97,14 +97,20 @@ func TimeFromTime64(t Time64, t0 time.Time) time.Time {
 	return time.Unix(sec, nsec).UTC()
 }
 
+// Before and After order NTP timestamps as points in time that lie less than
+// 2^31 seconds (about 68 years) apart. The seconds field wraps around at the
+// end of an NTP era (first in February 2036); comparing the difference, as
+// for serial numbers, keeps the order of timestamps on either side of it.
 func (t Time64) Before(u Time64) bool {
-	return t.Seconds < u.Seconds ||
-		t.Seconds == u.Seconds && t.Fraction < u.Fraction
+	return int64(t.fixed()-u.fixed()) < 0
 }
 
 func (t Time64) After(u Time64) bool {
-	return t.Seconds > u.Seconds ||
-		t.Seconds == u.Seconds && t.Fraction > u.Fraction
+	return int64(t.fixed()-u.fixed()) > 0
+}
+
+func (t Time64) fixed() uint64 {
+	return uint64(t.Seconds)<<32 | uint64(t.Fraction)
 }
 
 func ClockOffset(t0, t1, t2, t3 time.Time) time.Duration {
